@@ -24,7 +24,7 @@ RULE = ("case = (exponential model | copula of exponential models d = 2, 3, cred
         "payoff] by quadrature; non-trivial = default intensity > 1e-9; distinct = distinct seed")
 ASSUMPTIONS = ["thresholds strictly between the left truncation and -h (C13 domain); copulas with finite-variation margins",
                "copula callable trusted (C11); tail integrals by quadrature"]
-REQUIRED_COUNTERS = ["zero_recovery_cases", "other_model_priced_at_the_same_thresholds_before", "chain_vs_closed_form_1d", "chain_vs_region_mass_nd", "closed_form_vs_inclusion_exclusion", "monotonicity_checks", "default_rate_of_the_adapted_tree_sampler", "first_to_default_times_on_simulated_paths",
+REQUIRED_COUNTERS = ["deep_threshold_monotonicity_checks", "deep_threshold_clayton_checks", "zero_recovery_cases", "other_model_priced_at_the_same_thresholds_before", "chain_vs_closed_form_1d", "chain_vs_region_mass_nd", "closed_form_vs_inclusion_exclusion", "monotonicity_checks", "default_rate_of_the_adapted_tree_sampler", "first_to_default_times_on_simulated_paths",
                      "relation_checks", "inverse_roundtrips", "cds_expectation_checks", "threshold_on_cell_boundary"]
 MIN_NONTRIVIAL = {"quick": 30, "thorough": 400}
 THOROUGH_ROUNDS = 20      # the thorough tier runs the generators this many times (different seeds)
@@ -308,6 +308,46 @@ def _nd(case, R, rng):
         l2[k] = levels[k] * 0.9
         if float(cf._theta(l2)) < theta - 1e-12 * (1 + theta):
             R.violation("nd-theta-not-increasing", f"{label}: raising threshold {k} decreases theta", wit)
+    # ... down to thresholds so deep that a name's own default intensity is 1e-8 .. 1e-14: lowering one threshold (the others fixed) can
+    # only shrink the default region, and the first-to-default intensity stays at least the largest single-name intensity
+    for k in range(d):
+        prev_t = theta
+        for fac in (1.5, 2.2, 3.2, 4.6, 6.5, 9.0, 12.0):
+            l3 = list(levels)
+            l3[k] = levels[k] * fac
+            try:
+                th3 = float(cf._theta(l3))
+            except Exception as exc:  # noqa: BLE001
+                R.violation("nd-theta-raises-deep-threshold", f"{label}: _theta({l3}) raises {type(exc).__name__}: {exc}", wit)
+                break
+            R.hit("deep_threshold_monotonicity_checks")
+            if not (th3 <= prev_t * (1 + 1e-10) + 1e-15):
+                R.violation("nd-theta-not-increasing-deep-threshold", f"{label}: lowering threshold {k} from {levels[k] * fac / 1.4:.4g} to {l3[k]:.4g} raises the first-to-default "
+                            f"intensity from {prev_t!r} to {th3!r}", wit)
+                break
+            prev_t = th3
+    # ... and for two names linked by a Clayton copula, all thresholds deep: the intensity against the formula written here (tail integrals by
+    # quadrature, Clayton mass of the joint default quadrant eta (|U_1|^-theta + |U_2|^-theta)^(-1/theta))
+    if d == 2 and cm["copula"]["kind"] == "clayton":
+        th_c, eta_c = float(cm["copula"]["theta"]), float(cm["copula"]["eta"])
+        for fac in (1.0, 2.0, 3.5, 6.0, 10.0):
+            lv = [levels[0] * fac, levels[1] * fac]
+            u1, u2 = abs(oracle.U(0, lv[0])), abs(oracle.U(1, lv[1]))
+            if not (u1 > 1e-300 and u2 > 1e-300):
+                break
+            with np.errstate(all="ignore"):
+                joint = eta_c * float((u1 ** (-th_c) + u2 ** (-th_c)) ** (-1.0 / th_c)) if (th_c * max(-math.log(u1), -math.log(u2)) < 650) else eta_c * min(u1, u2)
+            want_t = u1 + u2 - joint
+            try:
+                got_t = float(cf._theta(lv))
+            except Exception as exc:  # noqa: BLE001
+                R.violation("nd-theta-raises-deep-threshold", f"{label}: _theta({lv}) raises {type(exc).__name__}: {exc}", wit)
+                break
+            R.hit("deep_threshold_clayton_checks")
+            if not (abs(got_t - want_t) <= 1e-7 * want_t + 100 * oracle.max_err + 1e-18):
+                R.violation("nd-theta-vs-clayton-formula-deep-thresholds" if fac > 1 else "nd-theta-vs-clayton-formula", f"{label}: thresholds {lv} (single-name intensities "
+                            f"{u1!r}, {u2!r}): closed-form first-to-default intensity {got_t!r}, |U_1| + |U_2| - eta (|U_1|^-theta + |U_2|^-theta)^(-1/theta) = {want_t!r}", wit)
+                break
     _relations(R, theta, float(cf.survival_probability(levels, t)), float(cf.first_to_default_par_spread(levels, rec_)), wit, "nd")
     if theta > 1e-9:
         spread = (1 - rec_) * theta * float(rng.uniform(0.5, 1.5))
